@@ -40,7 +40,7 @@ RULE = (
 )
 ASSUMPTIONS = [
     "a client speaks one protocol version per session; (server default version, request version) pairs explored: (3,3) to "
-    "depth 3/4, (3,1) (1,1) to depth 2/4, (3,2) (2,2) to depth 2/3 (quick/thorough); with differing versions the channels both "
+    "depth 3/4, (3,1) to depth 2/4, (3,2) (2,2) (1,1) to depth 2/3 (quick/thorough); with differing versions the channels both "
     "sides know (min of the two) are compared",
     "the reference state of a restarted server is taken from a fresh protocol-3 server (superset of the channels)",
     "requests that make the server raise (C15's subject, e.g. a JSON float for a hex option) are not in the alphabet; "
@@ -357,11 +357,11 @@ def req_line(cv: int, body: dict) -> str:
 
 
 def depth_of(tier: str, dv: int, cv: int) -> int:
-    """quick: depth 3 for the current protocol (3,3), depth 2 for the other pairs; thorough: depth 4 for (3,3), (3,1) and
-    the protocol-1 server end to end, depth 3 for (3,2) and (2,2)"""
+    """quick: depth 3 for the current protocol (3,3), depth 2 for the other pairs; thorough: depth 4 for (3,3) and (3,1)
+    (what a protocol-3 / protocol-1 client meets with the server the CLI starts), depth 3 for (3,2), (2,2), (1,1)"""
     if tier == "quick":
         return 3 if (dv, cv) == (3, 3) else 2
-    return 4 if (dv, cv) in ((3, 3), (3, 1), (1, 1)) else 3
+    return 4 if (dv, cv) in ((3, 3), (3, 1)) else 3
 
 
 def items(tier: str, seed: int):
@@ -837,12 +837,13 @@ def conformance_traces(tier: str, n: int) -> List[dict]:
     return out
 
 
-def conformance_one(case: dict) -> List[dict]:
+def conformance_one(case: dict, sub: Optional[dict] = None) -> List[dict]:
     h = list(case["history"])
     aux = {"hand": case["hand"]}
     viols: List[dict] = []
     inproc = server.run(case["files"], h, sdkconfig=case["sdk0"], default_version=case["dv"], aux=aux)
-    sub = server.run_subprocess(case["files"], h, sdkconfig=case["sdk0"], default_version=case["dv"], aux=aux)
+    if sub is None:
+        sub = server.run_subprocess(case["files"], h, sdkconfig=case["sdk0"], default_version=case["dv"], aux=aux)
     a, b_ = sub["lines"], inproc.lines
     if a != b_:
         fd = next((i for i, (x, y) in enumerate(zip(a, b_)) if x != y), min(len(a), len(b_)))
@@ -858,20 +859,29 @@ def conformance_one(case: dict) -> List[dict]:
     return viols
 
 
+def run_subprocesses(jobs: List[tuple]) -> List[dict]:
+    """the real servers are independent OS processes: run up to 8 at a time (the in-process twins stay sequential, they
+    replace sys.stdin/sys.stdout)"""
+    from concurrent.futures import ThreadPoolExecutor
+
+    with ThreadPoolExecutor(max_workers=8) as ex:
+        return list(ex.map(lambda j: server.run_subprocess(*j[0], **j[1]), jobs))
+
+
 def conformance(tier: str, seed: int):
     n = 10 if tier == "quick" else 200
     viols: List[dict] = []
-    done = 0
     saved = None
     if not os.environ.get("MCK_DEBUG"):
         saved = os.dup(2)
         common.silence_stderr()
     try:
-        for case in conformance_traces(tier, n):
-            viols.extend(conformance_one(case))
-            done += 1
+        cases = conformance_traces(tier, n)
+        subs = run_subprocesses([((c["files"], list(c["history"])), {"sdkconfig": c["sdk0"], "default_version": c["dv"], "aux": {"hand": c["hand"]}}) for c in cases])
+        for case, sub in zip(cases, subs):
+            viols.extend(conformance_one(case, sub))
     finally:
         if saved is not None:
             os.dup2(saved, 2)
             os.close(saved)
-    return done, viols
+    return len(cases), viols
